@@ -36,6 +36,7 @@ var (
 	shimDir = flag.String("shim", "/verif/shim", "shim sources")
 	withOS  = flag.Bool("vos", true, "rewrite os -> vos in store/store.go")
 	extra   = flag.String("extra-overlay", "", "JSON file with additional overlay entries (merged)")
+	statusPoints = flag.Bool("statuspoints", false, "make every read / update of a stage status a scheduling point")
 )
 
 func fail(format string, a ...interface{}) {
@@ -304,6 +305,32 @@ func (rw *rewriter) run() {
 				})
 			}
 		}
+	}
+	if *statusPoints && rw.conc && !rw.rangesOnly {
+		ast.Inspect(rw.file, func(n ast.Node) bool {
+			call, ok := n.(*ast.CallExpr)
+			if !ok {
+				return true
+			}
+			se, ok := call.Fun.(*ast.SelectorExpr)
+			if !ok {
+				return true
+			}
+			if id, ok := se.X.(*ast.Ident); ok && id.Name == "vsched" {
+				return true
+			}
+			switch {
+			case se.Sel.Name == "ReadStatus" && len(call.Args) == 0:
+				call.Args = []ast.Expr{se.X, se}
+				call.Fun = sel("vsched", "StatusRead")
+				rw.needSched = true
+			case se.Sel.Name == "UpdateStatus" && len(call.Args) == 1:
+				call.Args = []ast.Expr{se.X, se, call.Args[0]}
+				call.Fun = sel("vsched", "StatusWrite")
+				rw.needSched = true
+			}
+			return true
+		})
 	}
 	if rw.needSched {
 		rw.changed = true
